@@ -20,7 +20,7 @@ L4_KEY = "L4:CheckLengthSanity-min-element-size-4:qt_brackets.qtpl/qt_dict.qtpl"
 
 def run(c):
     c.lean(MODULES, THEOREMS, sources=SOURCES)
-    model, hcodec, schemas = cc.prepare(c)
+    model, hcodec, schemas = cc.prepare(c, cc.corpus(c) + cc.random_schemas(c, 2 if not c.thorough else 8))
     rng = c.rng
     per = 60 if c.thorough else 10
     for sc in schemas:
